@@ -679,7 +679,8 @@ class FieldStorageParser:
 
     def _write(self, line, file):
         """line is always bytes, not string"""
-        if isinstance(file, (BytesIO, StringIO)):  # if file is in memory
+        if isinstance(file, (BytesIO, StringIO)) and \
+                not (self.filename and self.file_callback):  # own buffer
             if file.tell() + len(line) > self.BUFSIZE:
                 _file = self.make_file()
                 _file.write(file.getvalue())
